@@ -23,28 +23,52 @@ Proof.
   eapply keeps_trans; [apply keeps_insert|apply IH].
 Qed.
 
-Definition v9_grows (s s' : v9state) : Prop := keeps (v9_t s) (v9_t s') /\ keeps (v9_o s) (v9_o s').
-Definition ix_grows (s s' : ixstate) : Prop := keeps (ix_t s) (ix_t s') /\ keeps (ix_o s) (ix_o s').
+(* an id that has a template in EITHER map of a protocol still has one afterwards: a definition
+   of the other kind supersedes (the repair of the kind-change defect: the id moves to the other
+   map), nothing else ever removes an entry *)
+Definition has2 {V W} (a : list (N * V)) (b : list (N * W)) (id : N) : Prop :=
+  lookup id a <> None \/ lookup id b <> None.
+Definition v9_grows (s s' : v9state) : Prop :=
+  forall id, has2 (v9_t s) (v9_o s) id -> has2 (v9_t s') (v9_o s') id.
+Definition ix_grows (s s' : ixstate) : Prop :=
+  forall id, has2 (ix_t s) (ix_o s) id -> has2 (ix_t s') (ix_o s') id.
 Definition grows (s s' : pstate) : Prop := v9_grows (st9 s) (st9 s') /\ ix_grows (stx s) (stx s').
 
-Lemma v9_grows_refl s : v9_grows s s. Proof. split; apply keeps_refl. Qed.
-Lemma ix_grows_refl s : ix_grows s s. Proof. split; apply keeps_refl. Qed.
+Lemma v9_grows_refl s : v9_grows s s. Proof. intros id H. exact H. Qed.
+Lemma ix_grows_refl s : ix_grows s s. Proof. intros id H. exact H. Qed.
 Lemma grows_refl s : grows s s. Proof. split; [apply v9_grows_refl|apply ix_grows_refl]. Qed.
 Lemma v9_grows_trans a b c : v9_grows a b -> v9_grows b c -> v9_grows a c.
-Proof. intros [A1 A2] [B1 B2]. split; eapply keeps_trans; eauto. Qed.
+Proof. intros A B id H. auto. Qed.
 Lemma ix_grows_trans a b c : ix_grows a b -> ix_grows b c -> ix_grows a c.
-Proof. intros [A1 A2] [B1 B2]. split; eapply keeps_trans; eauto. Qed.
+Proof. intros A B id H. auto. Qed.
 Lemma grows_trans a b c : grows a b -> grows b c -> grows a c.
 Proof. intros [A1 A2] [B1 B2]. split; [eapply v9_grows_trans|eapply ix_grows_trans]; eauto. Qed.
+
+Lemma fold_insert_in {A} (f : A -> N) (ts : list A) : forall (m : list (N * A)) id,
+  In id (map f ts) -> lookup id (fold_left (fun m t => insert (f t) t m) ts m) <> None.
+Proof.
+  induction ts as [|t ts IH]; intros m id H; [contradiction|]. cbn [fold_left map] in *.
+  destruct (in_dec N.eq_dec id (map f ts)) as [Hi|Hn]; [now apply IH|].
+  destruct H as [<-|H]; [|contradiction].
+  apply (keeps_fold f (fun t => t) ts). rewrite lookup_insert_eq. discriminate.
+Qed.
 
 Lemma parse_body_grows puf id s i : v9_grows s (snd (parse_body puf id s i)).
 Proof.
   unfold parse_body. destruct (id =? v9_template_id)%N.
   { destruct (parse_templates i) as [[ts pad] r|e]; cbn [snd]; [|apply v9_grows_refl].
-    split; cbn [v9_t v9_o]; [apply (keeps_fold t_id (fun t => t))|apply keeps_refl]. }
+    intros k [H|H]; cbn [v9_t v9_o].
+    - left. now apply (keeps_fold t_id (fun t => t)).
+    - destruct (in_dec N.eq_dec k (map t_id ts)) as [Hi|Hn].
+      + left. now apply fold_insert_in.
+      + right. now rewrite lookup_remove_keys_out. }
   destruct (id =? v9_options_template_id)%N.
   { destruct (parse_otemplates i) as [[ts pad] r|e]; cbn [snd]; [|apply v9_grows_refl].
-    split; cbn [v9_t v9_o]; [apply keeps_refl|apply (keeps_fold ot_id (fun t => t))]. }
+    intros k [H|H]; cbn [v9_t v9_o].
+    - destruct (in_dec N.eq_dec k (map ot_id ts)) as [Hi|Hn].
+      + right. now apply fold_insert_in.
+      + left. now rewrite lookup_remove_keys_out.
+    - right. now apply (keeps_fold ot_id (fun t => t)). }
   destruct (lookup id (v9_o s)); [cbn [snd]; apply v9_grows_refl|].
   destruct (lookup id (v9_t s)); cbn [snd]; apply v9_grows_refl.
 Qed.
@@ -88,11 +112,19 @@ Proof.
   destruct ((id <? ipfix_set_min_range)%N && negb (id =? ipfix_options_template_id)%N).
   { destruct (parse_itemplate i) as [t r|e]; [|apply ix_grows_refl].
     destruct (fields_valid _); cbn [snd]; [|apply ix_grows_refl].
-    split; cbn [ix_t ix_o]; [apply keeps_insert|apply keeps_refl]. }
+    intros k [H|H]; cbn [ix_t ix_o].
+    - left. now apply keeps_insert.
+    - destruct (N.eq_dec k (it_id t)) as [->|Hne].
+      + left. rewrite lookup_insert_eq. discriminate.
+      + right. now rewrite lookup_remove_neq. }
   destruct (id =? ipfix_options_template_id)%N.
   { destruct (parse_iotemplate i) as [t r|e]; [|apply ix_grows_refl].
     destruct (fields_valid _); cbn [snd]; [|apply ix_grows_refl].
-    split; cbn [ix_t ix_o]; [apply keeps_refl|apply keeps_insert]. }
+    intros k [H|H]; cbn [ix_t ix_o].
+    - destruct (N.eq_dec k (io_id t)) as [->|Hne].
+      + right. rewrite lookup_insert_eq. discriminate.
+      + left. now rewrite lookup_remove_neq.
+    - right. now apply keeps_insert. }
   destruct (lookup id (ix_t s)) as [t|].
   { destruct (parse_idata _ _ i) as [[? ?] ?|?]; apply ix_grows_refl. }
   destruct (lookup id (ix_o s)) as [t|]; [|apply ix_grows_refl].
@@ -144,12 +176,12 @@ Lemma parse_one_state puf allow s x :
   /\ (forall e, u_s 2 x = Err e -> s' = s).
 Proof.
   unfold parse_one. destruct (u_s 2 x) as [v body|k] eqn:Eu; cbn [step_state].
-  2:{ repeat split; auto; try apply keeps_refl; try (intros; discriminate). }
+  2:{ split; [apply grows_refl|]. repeat split; auto; try (intros; discriminate). }
   destruct (allow v) eqn:Ea; cbn [negb step_state].
-  2:{ repeat split; auto; try apply keeps_refl; try (intros; discriminate). }
+  2:{ split; [apply grows_refl|]. repeat split; auto; try (intros; discriminate). }
   destruct (version_kind v) as [[]|] eqn:Ek.
-  - destruct (parse_v5 body); cbn [step_state]; repeat split; auto; try apply keeps_refl; intros; discriminate.
-  - destruct (parse_v7 body); cbn [step_state]; repeat split; auto; try apply keeps_refl; intros; discriminate.
+  - destruct (parse_v5 body); cbn [step_state]; (split; [apply grows_refl|]); repeat split; auto; intros; discriminate.
+  - destruct (parse_v7 body); cbn [step_state]; (split; [apply grows_refl|]); repeat split; auto; intros; discriminate.
   - apply version_kind_inv in Ek. subst v. pose proof (parse_v9_grows puf (st9 s) body) as Hg.
     destruct (parse_v9 puf (st9 s) body) as [[p r|k] s9]; cbn [step_state snd st9 stx] in *;
       (split; [split; [exact Hg|apply ix_grows_refl]|]);
@@ -160,7 +192,7 @@ Proof.
       (split; [split; [apply v9_grows_refl|exact Hg]|]); (split; [reflexivity|]);
       (split; [intros v b H Hn; inversion H; subst; contradiction|]);
       (split; [intros v b H Hf; inversion H; subst; rewrite Ea in Hf; discriminate|intros; discriminate]).
-  - cbn [step_state]. repeat split; auto; try apply keeps_refl; intros; discriminate.
+  - cbn [step_state]. split; [apply grows_refl|]. repeat split; auto; intros; discriminate.
 Qed.
 
 Lemma run_grows puf allow : forall fuel s x r, run fuel puf allow s x = Some r -> grows s (final_state s r).
